@@ -952,8 +952,9 @@ where
                 Self::find_key_position(label_data, key)
             }
             _ => {
-                // For other storage types, return None for now
-                None
+                // The other storages hand out the state of the key as its node id
+                // (insert_and_get_node_id returns it): look it up through the automaton view
+                <Self as Trie>::lookup(self, key)
             }
         }
     }
